@@ -119,6 +119,8 @@ class StmtMixin:
             if ty == sym.TAny:
                 # an empty list/dict display bound to an opaque (Any) slot: an arbitrary opaque handle (nothing is known of it)
                 return sym.fresh(sym.TAny, self.ctx.fresh_name("emptylit"))
+            if isinstance(ty, TOpt):
+                return sym.coerce(self.materialize(val, ty.inner), ty)  # `x: Optional[list[T]]`; x = [] -> the present empty list
             raise Unsupported("empty literal for %s" % ty)
         return sym.coerce(val, ty)
 
@@ -136,7 +138,9 @@ class StmtMixin:
         if isinstance(val, EmptyLiteral):
             ty = self.lvalue_type(tgt, env)
             val = self.materialize(val, ty)
-        if not isinstance(val, V):
+        if type(val).__name__ == "TableRow" and not isinstance(tgt, (ast.Tuple, ast.List)):
+            raise Unsupported("dispatch table row stored in %s" % type(tgt).__name__)
+        if not isinstance(val, V) and type(val).__name__ != "TableRow":
             if isinstance(tgt, ast.Attribute) and isinstance(val, (BoundMethod, Closure)):
                 # storing a callable in a field: opaque handle
                 val = V(sym.TFunc, self.ctx.fresh_const(z3.IntSort(), "fn"))
@@ -186,6 +190,13 @@ class StmtMixin:
             else:
                 raise Unsupported("item assignment on %s" % ty)
             self.mutate(tgt.value, base, new, env)
+            return
+        if isinstance(tgt, (ast.Tuple, ast.List)) and type(val).__name__ == "TableRow":
+            # row of a dispatch table (dispatch.py, S2): `handler, epochs = table[key]`
+            if len(tgt.elts) != 2 or not all(isinstance(t, ast.Name) for t in tgt.elts):
+                raise Unsupported("unpacking a dispatch table row")
+            env.locals[tgt.elts[0].id] = val.handler
+            env.locals[tgt.elts[1].id] = val.epochs
             return
         if isinstance(tgt, (ast.Tuple, ast.List)):
             if not isinstance(val.ty, TTuple):
@@ -556,6 +567,9 @@ class StmtMixin:
                 nv = V(ty, z3.If(absent, self.heap.read(owner, f, ty, b.t).t, nv.t))
             self.heap.write(owner, f, ty, b.t, nv.t)
         for extra in spec.get("modifies", []):
+            if extra == "<everything>":
+                self.havoc_all_but([])  # the body calls a function whose contract says modifies=['<everything>']
+                continue
             if extra == "<opaque>":
                 # the body calls opaque callables: everything they may touch is unknown at the loop head
                 cfg = self.registry.consts.get("OPAQUE_CALL")
